@@ -725,12 +725,24 @@ func atomsOf(f Formula, out []string) []string {
 // followed; the result maps each outcome the documented cascade can produce to the rule producing
 // it. firstUndecided names the first rule whose guard the valuation does not decide. ok is false
 // when the exploration budget is exhausted.
-func specOutcomes(spec DecisionSpec, env map[string]int, lits []Lit) (outs map[string]string, firstUndecided string, ok bool) {
+func specOutcomes(spec DecisionSpec, env map[string]int, lits []Lit, excl [][2]string, clauses [][]string) (outs map[string]string, firstUndecided string, ok bool) {
 	outs = map[string]string{}
 	budget := 4096
 	ok = true
 	propagate := func(e map[string]int) bool {
-		for _, ex := range spec.Excl {
+		// "one of these holds" (a positive membership test in a fixed table)
+		for _, cl := range clauses {
+			allFalse := true
+			for _, a := range cl {
+				if e[a] != -1 {
+					allFalse = false
+				}
+			}
+			if allFalse {
+				return false
+			}
+		}
+		for _, ex := range excl {
 			if e[ex[0]] == 1 && e[ex[1]] == 1 {
 				return false
 			}
@@ -820,7 +832,18 @@ func CheckDecisionList(r *Report, rule, fnKey string, paths []DecisionPath, atom
 	for a := range atoms {
 		codeAtoms = append(codeAtoms, a)
 	}
+	for a := range atoms {
+		if subj, keys, ok := membershipLit(a); ok {
+			for _, k := range keys {
+				d := subj + " == " + k
+				if !atoms[d] {
+					codeAtoms = append(codeAtoms, d)
+				}
+			}
+		}
+	}
 	sort.Strings(codeAtoms)
+	codeAtoms = dedupStrings(codeAtoms)
 	for _, n := range names {
 		re, err := regexp.Compile(spec.Atoms[n])
 		if err != nil {
@@ -857,8 +880,71 @@ func CheckDecisionList(r *Report, rule, fnKey string, paths []DecisionPath, atom
 	}
 	groups := map[string]*group{}
 	var gkeys []string
+	// equalities of one subject with different constants exclude each other
+	excl := append([][2]string{}, spec.Excl...)
+	{
+		type eq struct{ name, lhs, cst string }
+		var eqs []eq
+		for a, n := range bind {
+			if lhs, cst, ok := splitEqConst(a); ok {
+				eqs = append(eqs, eq{n, lhs, cst})
+			}
+		}
+		for i := range eqs {
+			for j := i + 1; j < len(eqs); j++ {
+				if eqs[i].lhs == eqs[j].lhs && eqs[i].cst != eqs[j].cst {
+					excl = append(excl, [2]string{eqs[i].name, eqs[j].name})
+				}
+			}
+		}
+	}
+	// documented membership tests that the code spells as a chain of equalities (a switch):
+	// spec atom name -> (subject, keys)
+	type member struct {
+		subj string
+		keys []string
+	}
+	specMembers := map[string]member{}
+	bound := map[string]bool{}
+	for _, n := range bind {
+		bound[n] = true
+	}
+	for _, n := range names {
+		if bound[n] {
+			continue
+		}
+		if subj, keys, ok := membershipLit(unquoteRegexp(spec.Atoms[n])); ok {
+			specMembers[n] = member{subj, keys}
+		}
+	}
 	for i, p := range paths {
 		env := map[string]int{}
+		var clauses [][]string
+		for n, m := range specMembers {
+			anyTrue, allFalse := false, true
+			for _, k := range m.keys {
+				v := 0
+				for _, l := range p.Lits {
+					if l.Atom == m.subj+" == "+k {
+						v = -1
+						if l.Val {
+							v = 1
+						}
+					}
+				}
+				if v == 1 {
+					anyTrue = true
+				}
+				if v != -1 {
+					allFalse = false
+				}
+			}
+			if anyTrue {
+				env[n] = 1
+			} else if allFalse {
+				env[n] = -1
+			}
+		}
 		for _, l := range p.Lits {
 			if n, ok := bind[l.Atom]; ok {
 				if l.Val {
@@ -867,8 +953,27 @@ func CheckDecisionList(r *Report, rule, fnKey string, paths []DecisionPath, atom
 					env[n] = -1
 				}
 			}
+			// membership in a fixed table stands for the equalities with its keys
+			if subj, keys, ok := membershipLit(l.Atom); ok {
+				var cl []string
+				complete := true
+				for _, k := range keys {
+					n, bound := bind[subj+" == "+k]
+					if !bound {
+						complete = false
+						continue
+					}
+					if !l.Val {
+						env[n] = -1
+					}
+					cl = append(cl, n)
+				}
+				if l.Val && complete && len(cl) > 0 {
+					clauses = append(clauses, cl)
+				}
+			}
 		}
-		outs, undecided, explored := specOutcomes(spec, env, p.Lits)
+		outs, undecided, explored := specOutcomes(spec, env, p.Lits, excl, clauses)
 		gk, why := "", ""
 		_, agrees := outs[p.Outcome]
 		switch {
@@ -921,4 +1026,51 @@ func CheckDecisionList(r *Report, rule, fnKey string, paths []DecisionPath, atom
 		r.Add(rule+"-rule", fnKey+" rule "+sr.Name, "", n > 0,
 			fmt.Sprintf("%d agreeing paths end in %s", n, sr.Outcome))
 	}
+}
+
+// membershipLit recognises `in(set‹k1,k2›,subject)` / `in(map‹k1:v,..›,subject)`: a lookup of the
+// subject in a private table with fixed content; keys are returned as rendered constants ("k").
+func membershipLit(atom string) (subject string, keys []string, ok bool) {
+	if !strings.HasPrefix(atom, "in(set‹") && !strings.HasPrefix(atom, "in(map‹") {
+		return "", nil, false
+	}
+	end := strings.LastIndex(atom, "›,")
+	if end < 0 || !strings.HasSuffix(atom, ")") {
+		return "", nil, false
+	}
+	isMap := strings.HasPrefix(atom, "in(map‹")
+	body := atom[len("in(set‹"):end]
+	subject = atom[end+len("›,") : len(atom)-1]
+	for _, e := range SplitTop(body) {
+		if isMap {
+			if i := strings.LastIndex(e, ":"); i > 0 {
+				e = e[:i]
+			}
+		}
+		keys = append(keys, e)
+	}
+	return subject, keys, len(keys) > 0
+}
+
+func dedupStrings(xs []string) []string {
+	var out []string
+	for i, x := range xs {
+		if i == 0 || x != xs[i-1] {
+			out = append(out, x)
+		}
+	}
+	return out
+}
+
+// unquoteRegexp undoes `^` + regexp.QuoteMeta(s) + `$` (the form of exact-match spec atoms).
+func unquoteRegexp(re string) string {
+	re = strings.TrimSuffix(strings.TrimPrefix(re, "^"), "$")
+	var b strings.Builder
+	for i := 0; i < len(re); i++ {
+		if re[i] == '\\' && i+1 < len(re) {
+			i++
+		}
+		b.WriteByte(re[i])
+	}
+	return b.String()
 }
